@@ -169,12 +169,17 @@ def gen_cases(family, size, seed):
     return [l for l in out.split('\n') if l]
 
 
-def run_impl(cases, timeout=1200, threads=14):
-    """Execute case lines on the real crate. Returns list of observation strings."""
+def run_impl(cases, timeout=1200, threads=14, pin=False):
+    """Execute case lines on the real crate. Returns list of observation strings.
+    pin=True: the whole harness process is pinned to one CPU, so that the threads of the parallel functions are
+    time-sliced instead of running side by side (different interleavings than on 16 cores)."""
     data = ('\n'.join(cases) + '\n').encode()
     try:
         env = dict(ENV, VERIF_THREADS=str(threads))
-        p = subprocess.run([HBIN, 'exec'], input=data, stdout=subprocess.PIPE, stderr=subprocess.PIPE,
+        cmd = [HBIN, 'exec']
+        if pin and os.path.exists('/usr/bin/taskset'):
+            cmd = ['/usr/bin/taskset', '-c', '0'] + cmd
+        p = subprocess.run(cmd, input=data, stdout=subprocess.PIPE, stderr=subprocess.PIPE,
                            timeout=timeout, env=env)
     except subprocess.TimeoutExpired:
         return None
